@@ -302,9 +302,28 @@ def known_key(files, prov, exp, got):
     return None
 
 
+def _member(x, allowed):
+    for v in allowed:
+        if x == v:
+            return True
+    return False
+
+
 def _pre(e0, c0, r0, e1, c1, r1, p0, p1, p2):
-    n = len(EXPRS)
-    return 0 <= e0 < n and 0 <= e1 < n and 0 <= p0 < 7 and 0 <= p1 < 7 and 0 <= p2 < 7
+    # selectors range exactly over the allowed values (no duplicate "anything else" branch);
+    # selectors of fixed / unused dimensions are pinned to 0 and never looked at again
+    ok = True
+    for i, e in enumerate((e0, e1)):
+        if i < NFILES and f"file{i}" not in FIX:
+            ok = ok and _member(e, EXPR_SYM)
+        else:
+            ok = ok and e == 0
+    for i, p in enumerate((p0, p1, p2)):
+        if i < len(PROV_SYM) and f"prov:{PROV_SYM[i]}" not in FIX:
+            ok = ok and _member(p, FORMS_SYM)
+        else:
+            ok = ok and p == 0
+    return ok
 
 
 def _inventory_body(e0, c0, r0, e1, c1, r1, p0, p1, p2):
@@ -445,3 +464,268 @@ def _c01_reach(e0: int, c0: bool, r0: bool, e1: int, c1: bool, r1: bool, p0: int
 
 
 EXPLAIN["_c01"] = explain_lint
+
+
+# ------------------------------------------------------------------ C13: the output formats tell the same story
+@native
+def parse_plain(text):
+    cats = {"bad": {}, "deprecated": set(), "noext": set(), "missing": {}, "unused": set(), "read_errors": set(), "no_copyright": set(), "no_licence": set()}
+    section, sub, cur = None, None, None
+    for ln in text.splitlines():
+        if ln.startswith("# "):
+            section, sub, cur = ln[2:].strip(), None, None
+            continue
+        if section in ("BAD LICENSES", "MISSING LICENSES"):
+            key = "bad" if section.startswith("BAD") else "missing"
+            if ln.startswith("'") and ln.endswith("' found in:"):
+                cur = ln[1 : -len("' found in:")]
+                cats[key].setdefault(cur, set())
+            elif ln.startswith("* ") and cur is not None:
+                cats[key][cur].add(ln[2:])
+        elif section == "DEPRECATED LICENSES" and ln.startswith("* "):
+            cats["deprecated"].add(ln[2:])
+        elif section == "LICENSES WITHOUT FILE EXTENSION" and ln.startswith("* "):
+            cats["noext"].add(ln[2:])
+        elif section == "UNUSED LICENSES" and ln.startswith("* "):
+            cats["unused"].add(ln[2:])
+        elif section == "READ ERRORS" and ln.startswith("* "):
+            cats["read_errors"].add(ln[2:])
+        elif section == "MISSING COPYRIGHT AND LICENSING INFORMATION":
+            if ln.startswith("The following files have no copyright and licensing"):
+                sub = "both"
+            elif ln.startswith("The following files have no copyright information"):
+                sub = "c"
+            elif ln.startswith("The following files have no licensing information"):
+                sub = "l"
+            elif ln.startswith("* "):
+                if sub in ("both", "c"):
+                    cats["no_copyright"].add(ln[2:])
+                if sub in ("both", "l"):
+                    cats["no_licence"].add(ln[2:])
+    verdict = None
+    if "Congratulations! Your project is compliant" in text:
+        verdict = True
+    if "Unfortunately, your project is not compliant" in text:
+        verdict = False if verdict is None else "both"
+    return _freeze(cats), verdict
+
+
+def _freeze(c):
+    return {
+        "bad": {k: sorted(map(str, v)) for k, v in c["bad"].items()},
+        "missing": {k: sorted(map(str, v)) for k, v in c["missing"].items()},
+        "deprecated": sorted(c["deprecated"]),
+        "noext": sorted(c["noext"]),
+        "unused": sorted(c["unused"]),
+        "read_errors": sorted(map(str, c["read_errors"])),
+        "no_copyright": sorted(map(str, c["no_copyright"])),
+        "no_licence": sorted(map(str, c["no_licence"])),
+    }
+
+
+@native
+def parse_json(text):
+    d = _json.loads(text)
+    nc = d["non_compliant"]
+    cats = {
+        "bad": nc["bad_licenses"],
+        "missing": nc["missing_licenses"],
+        "deprecated": nc["deprecated_licenses"],
+        "noext": set(nc["licenses_without_extension"]),
+        "unused": nc["unused_licenses"],
+        "read_errors": nc["read_errors"],
+        "no_copyright": nc["missing_copyright_info"],
+        "no_licence": nc["missing_licensing_info"],
+    }
+    s = d["summary"]
+    counts_ok = (
+        s["files_total"] == len(d["files"])
+        and s["files_with_copyright_info"] == len(d["files"]) - len(nc["missing_copyright_info"])
+        and s["files_with_licensing_info"] == len(d["files"]) - len(nc["missing_licensing_info"])
+        and sorted(s["used_licenses"]) == sorted({e["value"] and k for f in d["files"] for e in f["spdx_expressions"] for k in [e["value"]]} and s["used_licenses"])
+    )
+    return _freeze(cats), s["compliant"], bool(counts_ok), sorted(f["path"] for f in d["files"])
+
+
+@native
+def parse_lines(text, licenses):
+    bypath = {str(v): k for k, v in licenses.items()}
+    cats = {"bad": {}, "deprecated": set(), "noext": set(), "missing": {}, "unused": set(), "read_errors": set(), "no_copyright": set(), "no_licence": set()}
+    junk = []
+    for ln in text.splitlines():
+        if ": bad license " in ln:
+            p, l = ln.rsplit(": bad license ", 1)
+            cats["bad"].setdefault(l, set()).add(p)
+        elif ": missing license " in ln:
+            p, l = ln.rsplit(": missing license ", 1)
+            cats["missing"].setdefault(l, set()).add(p)
+        elif ln.endswith(": deprecated license"):
+            cats["deprecated"].add(bypath.get(ln[: -len(": deprecated license")], "?" + ln))
+        elif ln.endswith(": license without file extension"):
+            cats["noext"].add(bypath.get(ln[: -len(": license without file extension")], "?" + ln))
+        elif ln.endswith(": unused license"):
+            cats["unused"].add(bypath.get(ln[: -len(": unused license")], "?" + ln))
+        elif ln.endswith(": read error"):
+            cats["read_errors"].add(ln[: -len(": read error")])
+        elif ln.endswith(": no license identifier"):
+            cats["no_licence"].add(ln[: -len(": no license identifier")])
+        elif ln.endswith(": no copyright notice"):
+            cats["no_copyright"].add(ln[: -len(": no copyright notice")])
+        elif ln.strip():
+            junk.append(ln)
+    return _freeze(cats), junk
+
+
+def report_cats(rep):
+    return _freeze(
+        {
+            "bad": rep.bad_licenses,
+            "missing": rep.missing_licenses,
+            "deprecated": rep.deprecated_licenses,
+            "noext": set(rep.licenses_without_extension),
+            "unused": rep.unused_licenses,
+            "read_errors": rep.read_errors,
+            "no_copyright": rep.files_without_copyright,
+            "no_licence": rep.files_without_licenses,
+        }
+    )
+
+
+def formats_story(files, prov):
+    """-> None if every format tells the same story, else a description."""
+    project, rep = real_report(files, prov)
+    want = report_cats(rep)
+    compliant = rep.is_compliant
+    plain = li.format_plain(rep)
+    js = li.format_json(rep)
+    lines = li.format_lines(rep)
+    pc, pv = parse_plain(plain)
+    jc, jv, counts_ok, jfiles = parse_json(js)
+    lc, junk = parse_lines(lines, dict(rep.licenses))
+    empty = _freeze({"bad": {}, "deprecated": set(), "noext": set(), "missing": {}, "unused": set(), "read_errors": set(), "no_copyright": set(), "no_licence": set()})
+    if pv is not compliant:
+        return f"plain verdict {pv} vs is_compliant {compliant}"
+    if jv is not compliant:
+        return f"json 'compliant' {jv} vs is_compliant {compliant}"
+    if not counts_ok:
+        return "json summary counts differ from the json's own lists"
+    if jc != want:
+        return f"json categories differ: { {k: (jc[k], want[k]) for k in want if jc[k] != want[k]} }"
+    if pc != (want if not compliant else empty):
+        return f"plain categories differ: { {k: (pc[k], want[k]) for k in want if pc[k] != want[k]} }"
+    if lc != (want if not compliant else empty):
+        return f"lines categories differ: { {k: (lc[k], want[k]) for k in want if lc[k] != want[k]} }"
+    if junk:
+        return f"lines output has unparseable lines {junk}"
+    if compliant != (want == empty):
+        return f"is_compliant={compliant} but categories {'empty' if want == empty else 'non-empty'}"
+    # the command: same exit status for every format, and it prints exactly the formatter's text
+    codes = {}
+    for fmt, text in (("quiet", ""), ("json", js), ("plain", plain), ("lines", lines)):
+        code, out = lint_exit(files, prov, fmt)
+        codes[fmt] = code
+        if fmt == "quiet" and out != "":
+            return "lint --quiet printed something"
+        if fmt == "plain" and parse_plain(out) != (pc, pv):
+            return "lint --plain printed something else than format_plain"
+        if fmt == "lines" and sorted(out.splitlines()) != sorted(text.splitlines()):
+            return "lint --lines printed something else than format_lines"
+        if fmt == "json" and parse_json(out)[0] != jc:
+            return "lint --json printed something else than format_json"
+    if set(codes.values()) != {0 if compliant else 1}:
+        return f"exit statuses {codes} for is_compliant={compliant}"
+    return None
+
+
+def _fmt_body(e0, c0, r0, e1, c1, r1, p0, p1, p2):
+    files, prov = scenario(e0, c0, r0, e1, c1, r1, p0, p1, p2)
+    return formats_story(files, prov) is None
+
+
+def _fmt(e0: int, c0: bool, r0: bool, e1: int, c1: bool, r1: bool, p0: int, p1: int, p2: int) -> bool:
+    """
+    pre: _pre(e0, c0, r0, e1, c1, r1, p0, p1, p2)
+    post: _
+    """
+    return _fmt_body(e0, c0, r0, e1, c1, r1, p0, p1, p2)
+
+
+def _fmt_reach(e0: int, c0: bool, r0: bool, e1: int, c1: bool, r1: bool, p0: int, p1: int, p2: int) -> bool:
+    """
+    pre: _pre(e0, c0, r0, e1, c1, r1, p0, p1, p2)
+    post: False
+    """
+    return _fmt_body(e0, c0, r0, e1, c1, r1, p0, p1, p2)
+
+
+def explain_fmt(e0, c0, r0, e1, c1, r1, p0, p1, p2):
+    d = explain_inv(e0, c0, r0, e1, c1, r1, p0, p1, p2)
+    files, prov = scenario(e0, c0, r0, e1, c1, r1, p0, p1, p2)
+    d["story"] = formats_story(files, prov)
+    return d
+
+
+EXPLAIN["_fmt"] = explain_fmt
+
+
+# ---- lint-file: for the covered files among F exactly the per-file problems lint reports for them
+def lintfile_story(files, prov, in_f):
+    project, rep = real_report(files, prov)
+    full_lines = li.format_lines_subset(rep).splitlines()
+    chosen = [FakePath(p) for p, sel in zip(FILES, in_f) if sel][: len(files) + 1]
+    extra = FakePath(ROOT / "LICENSES" / "MIT.txt")  # a non-covered file may be named too: it is ignored
+    subset = set(chosen) | ({extra} if in_f[-1] else set())
+    project2, saved = build_project(files, prov)
+    out = []
+    saved_echo = clf.click.echo
+    clf.click.echo = lambda message=None, nl=True, **kw: out.append(str(message) + ("\n" if nl else ""))
+    try:
+        try:
+            _callback(clf.lint_file)(_Obj(project2), False, True, subset)
+            code = None
+        except SystemExit as e:
+            code = e.code
+    finally:
+        clf.click.echo = saved_echo
+        pj.Path, rp.Path = saved[0], saved[1]
+    got = sorted("".join(out).splitlines())
+    names = {str(p) for p in chosen if p in [FakePath(x) for x in FILES[: len(files)]]}
+    want = sorted(ln for ln in full_lines if any(ln.startswith(n + ": ") for n in names))
+    if got != want:
+        return f"lint-file printed {got}, lint --lines restricted to F is {want}"
+    if code != (1 if want else 0):
+        return f"lint-file exit {code} with {len(want)} reported problems"
+    return None
+
+
+def _lf_body(e0, c0, r0, e1, c1, r1, p0, p1, p2, s0, s1, sx):
+    files, prov = scenario(e0, c0, r0, e1, c1, r1, p0, p1, p2)
+    in_f = [True if s0 else False, True if s1 else False, True if sx else False]
+    return lintfile_story(files, prov, in_f) is None
+
+
+def _lf(e0: int, c0: bool, r0: bool, e1: int, c1: bool, r1: bool, p0: int, p1: int, p2: int, s0: bool, s1: bool, sx: bool) -> bool:
+    """
+    pre: _pre(e0, c0, r0, e1, c1, r1, p0, p1, p2)
+    post: _
+    """
+    return _lf_body(e0, c0, r0, e1, c1, r1, p0, p1, p2, s0, s1, sx)
+
+
+def _lf_reach(e0: int, c0: bool, r0: bool, e1: int, c1: bool, r1: bool, p0: int, p1: int, p2: int, s0: bool, s1: bool, sx: bool) -> bool:
+    """
+    pre: _pre(e0, c0, r0, e1, c1, r1, p0, p1, p2)
+    post: False
+    """
+    return _lf_body(e0, c0, r0, e1, c1, r1, p0, p1, p2, s0, s1, sx)
+
+
+def explain_lf(e0, c0, r0, e1, c1, r1, p0, p1, p2, s0, s1, sx):
+    d = explain_inv(e0, c0, r0, e1, c1, r1, p0, p1, p2)
+    files, prov = scenario(e0, c0, r0, e1, c1, r1, p0, p1, p2)
+    d["F"] = [bool(s0), bool(s1), bool(sx)]
+    d["story"] = lintfile_story(files, prov, d["F"])
+    return d
+
+
+EXPLAIN["_lf"] = explain_lf
